@@ -36,10 +36,16 @@ def digest(obj) -> str:
 
 
 def load_known() -> list[dict]:
-    if not os.path.exists(KNOWN_FILE):
-        return []
-    with open(KNOWN_FILE) as f:
-        return json.load(f).get('findings', [])
+    """known_findings.json plus known_findings.d/*.json (one file per property)."""
+    out: list[dict] = []
+    files = [KNOWN_FILE] if os.path.exists(KNOWN_FILE) else []
+    d = os.path.join(ROOT, 'known_findings.d')
+    if os.path.isdir(d):
+        files += [os.path.join(d, f) for f in sorted(os.listdir(d)) if f.endswith('.json')]
+    for path in files:
+        with open(path) as f:
+            out += json.load(f).get('findings', [])
+    return out
 
 
 class Ctx:
